@@ -278,7 +278,21 @@ theorem clock_monotone_and_inverse (hist : Int) (fd : Nat) (hfd : 0 < fd) :
     (∀ ts, advance hist fd (realtime hist fd ts) = ts) :=
   ⟨advance_mono hist fd, advance_realtime hist fd hfd⟩
 
+/-- the clock runs at the same rate on both sides of `basis`: `k` whole steps of wall-clock time
+(`k` negative: calls made before the wall-clock instant at which the start point is scheduled) move
+it by `k` ticks from the start point -- in particular it is below `historical` before `basis`, so
+that by `never_early` (stated for the clock of each call) nothing later than it is delivered then -/
+theorem clock_affine (hist : Int) (fd : Nat) (hfd : 0 < fd) (k : Int) :
+    advance hist fd (k * fd) = hist + k ∧ (k < 0 → advance hist fd (k * fd) < hist) := by
+  rw [advance_affine hist fd hfd k]
+  exact ⟨rfl, fun h => by omega⟩
+
+/-- a call 30 ticks before the scheduled start point 1100: the clock is 1070, not 1100 -/
+example : advance 1100 10 (-30 * 10) = 1070 := by decide
+
 /-! ### Non-vacuity -/
+
+def eventsOf' (outs : List LoadOut) : List (List Event) := outs.map outEvents
 
 def R (t : Time) (v : Int) (reg : Nat := 40001) : Line := .recd t (.regs [(reg, v)])
 
@@ -316,6 +330,12 @@ example : withCopies [(H0[0], 0), (H0[1], 1), (H0[2], 2)] ≠ H0 ∧
       = runLoads H0 { la := 5 } sched0 {} := by decide +kernel
 
 example : stripLines H0[1] ≠ H0[1] := by decide
+
+/-- polled before the scheduled start point: with the start point at 1100 and calls from clock 1070 on,
+the record of 1096 is not delivered by the calls at 1070 and 1090 but by the one at 1100 -/
+example : eventsOf' (runLoads [[R 1000 1, R 1090 2, R 1096 6 40002, R 1110 3]] {}
+      [⟨1070, none, none⟩, ⟨1090, none, none⟩, ⟨1100, none, none⟩] {})
+    = [[(1000, [(40001, 1)])], [(1090, [(40001, 2)])], [(1096, [(40002, 6)])]] := by decide +kernel
 
 /-! ### The code before the repairs, and what remains open -/
 
